@@ -74,6 +74,14 @@ class _Shim:
         except self.asyncio.TimeoutError:
             return None
 
+    async def in_child(self, fn):
+        """Run the coroutine function in a child task of the application's (as applications built on task groups do) and wait for it."""
+        if self.lib == "trio":
+            async with self.trio.open_nursery() as nursery:
+                nursery.start_soon(fn)
+        else:
+            await self.asyncio.create_task(fn())
+
     def cancel_self(self):
         if self.lib == "trio":
             raise NotImplementedError
@@ -271,6 +279,11 @@ class ScriptedApps:
                     off += n
                     for _ in range(k):
                         await shim.checkpoint()
+            elif op == "child":
+                # ["child", [steps...]]: the given steps run in a child task of the application's
+                async def _sub(steps=step[1]):
+                    await self._run(steps, scope, receive, send, inst, shim)
+                await shim.in_child(_sub)
             elif op == "sleep":
                 await shim.sleep(step[1])
             elif op == "yield":
